@@ -449,6 +449,7 @@ def check(run: Run) -> None:
     _constant_rules(run, gm, cs)
 
     _grammar_reaches_caller_intact(run)
+    _no_empty_alternation(run)
 
     # ---------------------------------------------------------------- R12.4
     el = gm.func("GBNFCompiler._escape_literal")
@@ -587,6 +588,85 @@ def _passes_through(fi: FuncInfo, call: ast.Call, arg: ast.AST, depth: int) -> b
                 continue
             return False
     return True
+
+
+def _no_empty_alternation(run: Run) -> None:
+    """R12.6: `( a | b | ... )` built by joining a list has at least one alternative"""
+    run.rule("R12.6", "no empty alternative: every group the compiler builds by joining a list with ' | ' is built only where that list is known to be non-empty - a truthiness test of the list on the way, or (ENUM) a list that is non-empty by construction: the schema reader makes EnumConstraint.allowed_values with a filter-free comprehension over str.split(), which always has at least one element", 2)
+    gm = run.project.mod("core.gbnf_compiler")
+    cm = run.project.mod("core.constraints")
+    from ..cfg import CFG, atomic_conditions
+
+    def enum_values_nonempty() -> tuple[bool, str, ast.AST | None]:
+        fi = cm.func("ConstraintChain.parse")
+        cfg = CFG(fi.node)
+        sites = [c for c in walk_no_nested(fi.node) if isinstance(c, ast.Call) and isinstance(c.func, ast.Name) and c.func.id == "EnumConstraint"]
+        if not sites:
+            raise AnalysisError("ConstraintChain.parse: no EnumConstraint(...) construction found")
+        for c in sites:
+            v = next((k.value for k in c.keywords if k.arg == "allowed_values"), c.args[0] if c.args else None)
+            if isinstance(v, ast.Name):
+                defs = [a.value for a in walk_no_nested(fi.node) if isinstance(a, ast.Assign) and len(a.targets) == 1 and isinstance(a.targets[0], ast.Name) and a.targets[0].id == v.id]
+                holder = next((n for n in cfg.nodes if n.ast is not None and any(x is c for x in ast.walk(n.ast))), None)
+                guarded = holder is not None and any(val and ast.unparse(t) == v.id for t, val in atomic_conditions(cfg, holder.id))
+            else:
+                defs, guarded = ([v] if v is not None else []), False
+            for d in defs:
+                ok = isinstance(d, (ast.List, ast.Tuple)) and bool(d.elts)
+                if isinstance(d, ast.ListComp) and len(d.generators) == 1 and not d.generators[0].ifs:
+                    it = d.generators[0].iter
+                    # over <text>.split(<sep>) (never empty), possibly through a name bound once to it
+                    if isinstance(it, ast.Name):
+                        idefs = [a.value for a in walk_no_nested(fi.node) if isinstance(a, ast.Assign) and len(a.targets) == 1 and isinstance(a.targets[0], ast.Name) and a.targets[0].id == it.id]
+                        it = idefs[0] if len(idefs) == 1 else it
+                    ok = isinstance(it, ast.Call) and isinstance(it.func, ast.Attribute) and it.func.attr in ("split", "rsplit") and len(it.args) >= 1
+                if not ok and not guarded:
+                    return False, f"`{norm(d)[:90]}` can be empty (a filtered comprehension / a list that is not split() of text)", c
+        return True, "", None
+
+    n = 0
+    for fi in gm.functions.values():
+        if fi.cls != "GBNFCompiler":
+            continue
+        cfg = None
+        for c in walk_no_nested(fi.node):
+            if not (isinstance(c, ast.Call) and isinstance(c.func, ast.Attribute) and c.func.attr == "join" and isinstance(c.func.value, ast.Constant) and isinstance(c.func.value.value, str) and c.func.value.value.strip() == "|" and len(c.args) == 1):
+                continue
+            n += 1
+            cfg = cfg or CFG(fi.node)
+            arg = c.args[0]
+            names = {x.id for x in ast.walk(arg) if isinstance(x, ast.Name)}
+            holder = next((nd for nd in cfg.nodes if nd.ast is not None and any(x is c for x in ast.walk(nd.ast))), None)
+            guarded = holder is not None and any(val and isinstance(t, ast.Name) and t.id in names for t, val in atomic_conditions(cfg, holder.id))
+            why = "a truthiness test of the list is on the way"
+            ok = guarded
+            if not ok:
+                # the joined list derives, length-preserving, from <constraint>.allowed_values
+                src = arg
+                for _ in range(4):
+                    if isinstance(src, ast.Name):
+                        defs = [a.value for a in walk_no_nested(fi.node) if isinstance(a, ast.Assign) and len(a.targets) == 1 and isinstance(a.targets[0], ast.Name) and a.targets[0].id == src.id]
+                        if len(defs) != 1:
+                            break
+                        src = defs[0]
+                    elif isinstance(src, (ast.ListComp, ast.GeneratorExp)) and len(src.generators) == 1 and not src.generators[0].ifs:
+                        src = src.generators[0].iter
+                    else:
+                        break
+                if isinstance(src, ast.Attribute) and src.attr == "allowed_values":
+                    ok, why2, site = enum_values_nonempty()
+                    why = "the list is <ENUM>.allowed_values mapped one to one, and the schema reader never builds an empty one" if ok else why2
+                    if not ok:
+                        run.instance("R12.6", gm.loc(c), f"{fi.qualname}: `{norm(c)[:70]}`", ok=False)
+                        run.violation("R12.6", cm, "ConstraintChain.parse", site or "EnumConstraint(...)", f"the schema reader can build an ENUM with no allowed value: {why2}; {fi.qualname} joins the values into a group without testing for emptiness, so `ENUM[]` compiles to `()` - an empty alternative, not well-formed GBNF")
+                        continue
+                else:
+                    why = f"`{norm(arg)[:60]}` is neither tested for emptiness nor derived one to one from an ENUM's values"
+            run.instance("R12.6", gm.loc(c), f"{fi.qualname}: `{norm(c)[:70]}`: {why}", ok=ok)
+            if not ok:
+                run.violation("R12.6", gm, fi.qualname, c, f"a group of alternatives is built by `{norm(c)[:80]}` although the list may be empty: the grammar then contains `()` (an empty alternative)")
+    if n < 2:
+        raise AnalysisError(f"only {n} ' | '.join(...) site(s) found in GBNFCompiler")
 
 
 def _grammar_reaches_caller_intact(run: Run) -> None:
